@@ -1091,7 +1091,9 @@ class BlocksRead(Component):
         if h == 'panic':
             return (f'blocksr:{profile}:panic:{cls}', f'reading a metadata section panicked ({profile}): {cls}')
         n = len(cf.get('bytes', '')) // 2
-        if 'peak' in f and int(f['peak']) > 64 * n + (1 << 16):
+        # bounded = a constant plus a multiple of the input: the largest legitimate up-front allocation is a SEEKTABLE's
+        # point vector, sized from the 24-bit block size (at most 2^24/18 points of 24 bytes = 22 MiB)
+        if 'peak' in f and int(f['peak']) > 64 * n + (1 << 25):
             return ('blocksr:alloc', f'reading {n} bytes of metadata allocated {f["peak"]} bytes')
         if h == 'ok':
             rw = f.get('rewritten', '')
